@@ -280,6 +280,19 @@ def r2_letters(chk, F):
     ok = got == LETTERS
     chk.ob(rule, "<Format as FromStr>::from_str", "letter->Token-map", ok, "switch targets vs documented table",
            detail=None if ok else {"code": got, "documented": LETTERS})
+    # every arm hands the token's 2nd and 3rd characters to Item::new as first and second separator, in that order
+    bad = {}
+    narm = 0
+    for bi, b in enumerate(fn["blocks"]):
+        t = b["t"]
+        if t["k"] == "switch" and len(t["vals"]) >= 10 and F.types[t["ty"]]["k"] == "char":
+            for v, tgt in t["vals"]:
+                sa = _arm_separator_args(F, fn, tgt, inew)
+                narm += 1
+                if sa != (1, 2):
+                    bad[chr(v)] = sa
+    chk.ob(rule, "<Format as FromStr>::from_str", "Item::new(token,chars().nth(1),chars().nth(2))-in-every-arm", not bad and narm >= 17, "E5 operand flow per arm",
+           detail=bad or None)
     chk.floor(rule, "token letters", len(got), 17)
     # Item::new decision table over (None | '?' | other) x (None | '?' | other)
     finals, args = D.run(inew)
@@ -325,6 +338,48 @@ def r2_letters(chk, F):
                detail=None if ok else {k: repr(v) for k, v in f.items()})
     no_bad_events(chk, rule, "Item::new", finals, eng)
     chk.floor(rule, "Item::new cases", cases, 9)
+
+
+def _arm_separator_args(F, fn, bi, inew):
+    """(index of the character handed to Item::new as first separator, as second separator) in the arm starting at block bi:
+    each must be `token.chars().nth(k)` with k = 1 resp. 2."""
+    seen = set()
+    cur = bi
+    nth = {}
+    depth = 0
+    defs = cfg.unique_defs(fn)
+    while cur is not None and cur not in seen and depth < 40:
+        seen.add(cur)
+        depth += 1
+        t = fn["blocks"][cur]["t"]
+        if t["k"] == "call":
+            nm = cfg.callee_name(t["f"])
+            if nm.split("::<")[0].endswith("::nth") or "::nth::" in nm or nm.endswith("::nth"):
+                k = cfg.resolve(fn, t["args"][1], defs)
+                nth[t["dest"]["l"]] = k[1].get("v") if k[0] == "const" else None
+            if t["f"].get("fn_id") == inew["id"]:
+                out = []
+                for a in t["args"][1:3]:
+                    p = cfg.operand_place(a)
+                    v = None
+                    for _ in range(6):
+                        if p is None or p["pj"]:
+                            break
+                        if p["l"] in nth:
+                            v = nth[p["l"]]
+                            break
+                        d = defs.get(p["l"])
+                        if d is None or d["op"] != "use":
+                            break
+                        p = cfg.operand_place(d["x"])
+                    out.append(v)
+                return tuple(out)
+            cur = t["t"]
+        elif t["k"] in ("goto", "drop", "assert"):
+            cur = t["t"]
+        else:
+            return None
+    return None
 
 
 def _first_item_new(F, fn, bi, inew, depth=0):
